@@ -10,13 +10,21 @@ PROP = {'gen': ['base64'],
                'from_value,from_str} and Display/FromStr of surf_n_term::{Image, Face, Size, KeyChord, Glyph, view::Text, '
                'view::ViewDeserializer}; risky documents run in child processes with a watchdog; a deserialised view is laid out and '
                'rendered)',
- 'level_text': 'Coq theorems over executable models of the crate\'s hand-written visitors over the serde data model: Face text form and '
-               'serde form round-trip for every face (any colours, any underline style + flags); Size and every parser-accepted '
-               'KeyChord round-trip; Image serialisation followed by deserialisation returns the image pixel for pixel; 1/3/4-channel '
-               'documents (any key order, repeats) give exactly the pixels of the layout; Image / Face / view-tree / Text / Glyph '
-               'deserialisation of every JSON value returns a value or an error (size arithmetic checked, indexing in range, recursion '
-               'bounded by nesting depth). "A view that deserialises can be laid out and rendered" is checked on the implementation '
-               'only (child process exit status), not proved.',
+ 'level_text': 'Coq theorems over executable models of the crate\'s hand-written visitors over the serde data model. Substantive: Face text '
+               'form and serde form round-trip for every face (any colours, any underline style + flags) and for every face the '
+               'crate\'s own parser returns; Size and every parser-accepted KeyChord round-trip; Image serialisation followed by '
+               'deserialisation returns the image pixel for pixel (also for the image value of any C07 view chain); 1/3/4-channel '
+               'documents (any key order, repeats) give exactly the pixels of the layout; Image deserialisation of every JSON value '
+               'returns a value or an error (size arithmetic checked, indexing in range). By construction of the model rather than by '
+               'a deep argument: view-tree / Text / Glyph / GlyphFrame / Face deserialisation is total (their models have no panic '
+               'site except the embedded image visitor; the theorem adds that recursion is bounded by the nesting depth); what '
+               'happens inside put_fmt, Face::overlay, Glyph::new, Path / Scene parsing rests on the run. Last clause: every accepted '
+               'document has a view tree of the C10 model (same deserialiser, C10 constructors; C19_view_tree_covers_partial: except '
+               'documents containing an image_ascii view, which C10 does not model) and that tree lays out under every valid '
+               'constraint and renders without panic or InvalidLayout (C10_total). That the mapping builds the right tree is by '
+               'reading the code; the run lays out and renders every accepted view on the implementation (two contexts, 11 '
+               'constraints; Err counts as failure). "Rendered" means View::render into a surface: rasterisation of glyphs happens '
+               'later in the terminal renderer and is only probed (tagged, not judged).',
  'level_note': 'Trusted: Coq kernel + vm_compute; regenerated base64 tables (C14) and the C14 decoder theorems; hand-written models '
                'validated by the correspondence run; serde_json (document -> data model), serde derive (Size) and rasterize (RGBA '
                'text form modelled for #rrggbb[aa]; colour names, /alpha, Path, Scene, BBox, FillRule and the derived Axis / Justify / '
@@ -38,7 +46,7 @@ PROP = {'gen': ['base64'],
                   'external deserialisers as oracles (rasterize, serde derive); the real answers are supplied per case',
                   'layout / render of deserialised views is observed on the implementation only',
                   HARNESS],
- 'assumptions': ['attribute sets are an underline style (0..5) plus flags, i.e. the values FaceAttrs::pack can produce',
+ 'assumptions': ['attribute sets are an underline style (0..5) plus flags: after the repair of the compound assignment operators these are all values of FaceAttrs reachable through its public API',
                  'an image in memory has h*w pixels of 4 bytes with 4*h*w < 2^64; 64-bit usize',
                  'documents reach the visitors through serde_json (text nested deeper than 128 levels is rejected by its parser)'
                  ]}
